@@ -17,8 +17,59 @@ Has(e, f) == f \in DOMAIN e
 
 FormatOf(s) == [k \in FormatKeys |-> IF Has(s, "opts") /\ k \in DOMAIN s.opts THEN s.opts[k] ELSE DefaultFormat[k]]
 
+
 \* magnitude: x = 0.d1d2... * 10^Mag(x)
 Mag(x) == LET y == DecNorm(x) IN Len(y.ds) + y.e
+
+\* the leading k digits of a decimal (the rest cut off)
+Lead(x, k) == IF Len(x.ds) <= k THEN x ELSE Dec(x.sg, SubSeq(x.ds, 1, k), x.e + (Len(x.ds) - k))
+
+\* O1 on doubles of any magnitude: the operands' exact decimal expansions, exact decimal arithmetic, and the
+\* result's exact expansion within half a unit in the last place (1.2 * 10^-16 relative) of the real result
+Tol(E) == Dec(1, BigMul(E.ds, <<1, 2>>), E.e - 17)
+Near(o, E) == IF DecIsZero(E) THEN DecIsZero(o) ELSE DecSign(o) = DecSign(E) /\ AbsWithin(o, E, Tol(E))
+OpVerdict(s) ==
+    LET o == s.out IN
+    IF ~Has(s, "xe") THEN "inc:operand with a long binary expansion"
+    ELSE LET \* + - * / : forty leading digits of each operand carry more than the result can show
+             X == IF s.op = "%" THEN s.xe ELSE Lead(s.xe, 40)
+             Y == IF s.op = "%" THEN s.ye ELSE Lead(s.ye, 40)
+             hasNum == o.o = "val" /\ Has(o, "xe")
+             hasBool == o.o = "val" /\ Has(o, "b")
+             span == LET lo == IF X.e < Y.e THEN X.e ELSE Y.e
+                         hi == IF Mag(X) > Mag(Y) THEN Mag(X) ELSE Mag(Y) IN hi - lo
+         IN
+         CASE s.op \in {"+", "-", "*"} ->
+                LET Y1 == IF s.op = "-" THEN DecNeg(Y) ELSE Y
+                    \* an addend more than 45 orders of magnitude below the other does not show in the sum
+                    E == IF s.op = "*" THEN DecMul(X, Y)
+                         ELSE IF DecIsZero(X) THEN Y1 ELSE IF DecIsZero(Y1) THEN X
+                         ELSE IF Mag(X) - Mag(Y1) > 45 THEN X ELSE IF Mag(Y1) - Mag(X) > 45 THEN Y1
+                         ELSE DecAdd(X, Y1) IN
+                IF ~DecIsZero(E) /\ Mag(E) >= 310 THEN (IF o.o = "err" THEN "ok" ELSE "no;num-op-overflow-not-reported")
+                ELSE IF ~DecIsZero(E) /\ Mag(E) < 0 - 306 THEN "inc:result in the subnormal range"
+                ELSE IF o.o = "err" THEN (IF Mag(E) = 309 THEN "inc:result at the edge of the double range" ELSE "no;num-op-failed")
+                ELSE IF ~hasNum THEN "inc:result with a long binary expansion"
+                ELSE IF Near(o.xe, E) THEN "ok" ELSE "no;num-op-wrong-result"
+           [] s.op = "/" ->
+                IF DecIsZero(Y) THEN (IF o.o = "err" THEN "ok" ELSE "no;num-op-division-by-zero-not-reported")
+                ELSE IF DecIsZero(X) THEN (IF hasNum /\ DecIsZero(o.xe) THEN "ok" ELSE "no;num-op-wrong-result")
+                ELSE IF Mag(X) - Mag(Y) >= 311 THEN (IF o.o = "err" THEN "ok" ELSE "no;num-op-overflow-not-reported")
+                ELSE IF Mag(X) - Mag(Y) >= 308 \/ Mag(X) - Mag(Y) < 0 - 305 THEN "inc:result at the edge of the double range"
+                ELSE IF o.o = "err" THEN "no;num-op-failed"
+                ELSE IF ~hasNum THEN "inc:result with a long binary expansion"
+                ELSE IF DecSign(o.xe) = DecSign(X) * DecSign(Y) /\ AbsWithin(DecMul(o.xe, Y), X, Tol(X)) THEN "ok" ELSE "no;num-op-wrong-result"
+           [] s.op = "%" ->
+                IF DecIsZero(Y) THEN (IF o.o = "err" THEN "ok" ELSE "no;num-op-division-by-zero-not-reported")
+                ELSE IF span > 60 THEN "inc:remainder of operands very far apart"
+                ELSE IF ~hasNum THEN (IF o.o = "err" THEN "no;num-op-failed" ELSE "inc:result with a long binary expansion")
+                ELSE IF DecSame(o.xe, DecRem(X, Y)) THEN "ok" ELSE "no;num-op-wrong-remainder"
+           [] s.op \in {"<", "<=", ">", ">=", "=", "!="} ->
+                IF ~hasBool THEN "no;num-op-comparison-not-boolean"
+                ELSE LET want == CASE s.op = "<" -> DecLt(s.xe, s.ye) [] s.op = "<=" -> ~DecLt(s.ye, s.xe) [] s.op = ">" -> DecLt(s.ye, s.xe)
+                                   [] s.op = ">=" -> ~DecLt(s.xe, s.ye) [] s.op = "=" -> DecSame(s.xe, s.ye) [] OTHER -> ~DecSame(s.xe, s.ye)
+                     IN  IF o.b = want THEN "ok" ELSE "no;num-op-wrong-comparison"
+           [] OTHER -> "inc:operator outside TraceNum"
 
 StepVerdict(s) ==
     LET o == s.out IN
@@ -60,6 +111,7 @@ StepVerdict(s) ==
                    IN  IF DecNorm(D).sg = 0 THEN (IF DecNorm(o.x).sg = 0 THEN "ok" ELSE "no;num-numeral-value")
                        ELSE IF SigDigits(D) <= 15 THEN (IF DecEq(o.x, D) THEN "ok" ELSE "no;num-numeral-value")
                        ELSE IF D.sg = o.x.sg /\ AbsWithin(o.x, D, Slack(D)) THEN "ok" ELSE "no;num-numeral-value"
+           [] s.fn = "op" -> OpVerdict(s)
            [] OTHER -> "no;num-" \o o.o
 
 RECURSIVE FirstBad(_, _)
